@@ -157,3 +157,74 @@ def result_ctor_sites(body, variant):
         if s.k == "assign" and s.rv.k == "aggr" and s.rv.j["ak"] == "adt" and s.rv.j["variant"] == variant and s.rv.j["adt"] in ("std::result::Result", "std::option::Option"):
             out.append((s.bb, s))
     return out
+
+
+# ------------------------------------------------------------------ atom-consistent path feasibility
+
+
+def atom_key(fl, bb):
+    """(key, true_succ, false_succ) for a boolean switch whose test is a stable, pure predicate"""
+    from panic import norm
+
+    at = fl.atom(bb)
+    if not at or at["ty"] != "bool":
+        return None
+    test = norm(at["test"])
+    neg = False
+    while isinstance(test, tuple) and test[0] == "unop" and test[1] == "Not":
+        neg = not neg
+        test = test[2]
+    f_succ = dict(at["targets"]).get(0)
+    t_succ = at["otherwise"]
+    if neg:
+        f_succ, t_succ = t_succ, f_succ
+    ok = False
+    if isinstance(test, tuple):
+        if test[0] == "place" and ".specs." in test[1]:
+            ok = True
+        elif test[0] == "call" and test[1].split("::")[-1] in ("contains_key", "eq", "has_node", "is_nan"):
+            ok = True
+    if not ok:
+        return None
+    return (fmt_desc(test), t_succ, f_succ)
+
+
+def feasible_states(body, fl, kills=None, max_states=20000, keep=None):
+    """forward exploration of (block, known atom values) keeping only atom-consistent branches.
+    `kills(bb)` -> iterable of substrings; facts whose key contains one of them are dropped after bb.
+    returns {bb: set of frozenset((key, bool))} of states at block ENTRY."""
+    start = (0, frozenset())
+    seen = {start}
+    work = [start]
+    at_entry = defaultdict(set)
+    at_entry[0].add(frozenset())
+    n = 0
+    while work:
+        n += 1
+        if n > max_states:
+            return None
+        bb, facts = work.pop()
+        fd = dict(facts)
+        out_facts = facts
+        if kills is not None:
+            ks = list(kills(bb))
+            if ks:
+                out_facts = frozenset((k, v) for (k, v) in facts if not any(x in k for x in ks))
+                fd = dict(out_facts)
+        ak = atom_key(fl, bb) if body.blocks[bb].term.k == "switch" else None
+        for s in body.succ(bb):
+            nf = out_facts
+            if ak is not None:
+                key, t_succ, f_succ = ak
+                if t_succ != f_succ and (keep is None or keep(key)):
+                    val = True if s == t_succ else (False if s == f_succ else None)
+                    if val is not None:
+                        if key in fd and fd[key] != val:
+                            continue  # infeasible: contradicts what an earlier test established
+                        nf = out_facts | {(key, val)}
+            st = (s, nf)
+            if st not in seen:
+                seen.add(st)
+                at_entry[s].add(nf)
+                work.append(st)
+    return at_entry
